@@ -239,7 +239,7 @@ class _Track:
 
 
 # ------------------------------------------------------------- part A: exact --
-def _judge(res, trk, cfg, via, data, po, ix0, iy0, do_sum, count_nt=True, report=True):
+def _judge(res, trk, cfg, via, data, po, ix0, iy0, do_sum, count_nt=True, index=None):
     """Compare one array of pixel values with the reference (same shape); one violation per kind."""
     case = _case(cfg, via)
     shape = cfg['shape']
@@ -251,13 +251,22 @@ def _judge(res, trk, cfg, via, data, po, ix0, iy0, do_sum, count_nt=True, report
     res.outcomes[str((shape, via, 'cut'))] += ncut
     res.outcomes[str((shape, via, 'in'))] += int((cls == 1).sum())
     res.outcomes[str((shape, via, 'out'))] += int((cls == -1).sum())
+
+    def pix(j, i):              # image pixel of array cell [j, i] (``index``: explicit pixel lists)
+        if index is not None:
+            return int(index[0][j, i]), int(index[1][j, i])
+        return ix0 + int(i), iy0 + int(j)
     res.extra['pixels_cut'] = res.extra.get('pixels_cut', 0) + ncut
     res.extra['pixels_robust_full'] = res.extra.get('pixels_robust_full', 0) + int(robust.sum())
     if count_nt and ncut:
         jj, ii = np.nonzero(cls == 0)
         idx = cfg.get('idx', 0)
-        for j, i in zip(jj.tolist(), ii.tolist()):
-            res.nontrivial.add(f'{idx}:{ix0 + i}:{iy0 + j}')
+        if index is None:
+            for j, i in zip(jj.tolist(), ii.tolist()):
+                res.nontrivial.add(f'{idx}:{ix0 + i}:{iy0 + j}')
+        else:
+            for j, i in zip(jj.tolist(), ii.tolist()):
+                res.nontrivial.add('%d:%d:%d' % ((idx,) + pix(j, i)))
     fin = np.isfinite(v)
     with np.errstate(invalid='ignore'):
         err = np.abs(v - ref)
@@ -279,7 +288,7 @@ def _judge(res, trk, cfg, via, data, po, ix0, iy0, do_sum, count_nt=True, report
 
     def listing(mask):
         jj, ii = np.nonzero(mask)
-        return [[ix0 + int(i), iy0 + int(j), _fl(v[j, i]), float(ref[j, i])] for j, i in list(zip(jj, ii))[:MAXOBS]]
+        return [list(pix(j, i)) + [_fl(v[j, i]), float(ref[j, i])] for j, i in list(zip(jj, ii))[:MAXOBS]]
 
     found = []
     for kind, mask, what, exp in (
@@ -305,8 +314,7 @@ def _judge(res, trk, cfg, via, data, po, ix0, iy0, do_sum, count_nt=True, report
         if not abs(tot - area) <= TOL * max(1.0, area):
             found.append({'kind': 'exact_sum_wrong', 'sum': tot, 'expected': area,
                           'message': f'{shape} {_desc(cfg)} via {via}: mask sums to {tot!r}, analytic area {area!r}'})
-    if report:
-        _report(res, case, found)
+    _report(res, case, found)
     return found
 
 
@@ -369,7 +377,9 @@ def check_exact(res, trk, cfg, vias=('to_mask', 'kernel')):
         _check_biggrid(res, trk, cfg)
         return
     kb = _ref_box(cx, cy, rx, ry, th, RIM)
-    po = _oracle(cfg, kb[0], kb[2], kb[1] - kb[0], kb[3] - kb[2])
+    # semi-axes >= 64: Green's theorem only where the geometric classification is not robust (elsewhere the
+    # reference is 1 / 0 by convexity); smaller shapes: Green's theorem on every pixel
+    po = _oracle(cfg, kb[0], kb[2], kb[1] - kb[0], kb[3] - kb[2], full=max(rx, ry) < 64.0)
     if 'kernel' in vias:
         res.axis('via', 'kernel')
         try:
@@ -394,7 +404,7 @@ def check_exact(res, trk, cfg, vias=('to_mask', 'kernel')):
         if ix0 >= kb[0] and iy0 >= kb[2] and ix0 + nx <= kb[1] and iy0 + ny <= kb[3]:
             sub = _slice(po, ix0 - kb[0], iy0 - kb[2], nx, ny)
         else:
-            sub = _oracle(cfg, ix0, iy0, nx, ny)
+            sub = _oracle(cfg, ix0, iy0, nx, ny, full=max(rx, ry) < 64.0)
         _judge(res, trk, cfg, 'to_mask', data, sub, ix0, iy0, do_sum=True)
 
 
@@ -422,28 +432,33 @@ def _windows(cfg):
 
 
 def _check_windows(res, trk, cfg):
-    """Semi-axis 1000: the kernel on windows around the boundary; all windows of a configuration are judged
-    together (one violation per kind)."""
+    """Semi-axis 1000: the kernel on windows around the boundary.  Pixels shared by overlapping windows are
+    judged once (first window); all windows of a configuration are judged together (one violation per kind)."""
     res.axis('via', 'kernel_window')
-    wins = _windows(cfg)
-    datas, refs = [], []
-    for w in wins:
+    rx, ry, th = _params(cfg)
+    cx, cy = cfg['phase']
+    vals, IX, IY = [], [], []
+    seen = set()
+    for w in _windows(cfg):
         try:
-            d = _kernel_call(cfg, *w)
+            d = np.asarray(_kernel_call(cfg, *w), float)
         except Exception as exc:
             res.violation(ID, 'unexpected_exception', _case(cfg, 'kernel_window'), f'kernel raised {type(exc).__name__}: {exc}')
             return
-        datas.append(np.asarray(d, float))
-        refs.append(_oracle(cfg, w[0], w[2], WIN, WIN))
-    # judged window by window, reported once per kind
-    case = _case(cfg, 'kernel_window')
-    agg = {}
-    for w, d, po in zip(wins, datas, refs):
-        for f in _judge(res, trk, cfg, 'kernel_window', d, po, w[0], w[2], do_sum=False, report=False):
-            a = agg.setdefault(f['kind'], dict(f, n_bad=0, pixels=[]))
-            a['n_bad'] += f['n_bad']
-            a['pixels'] = (a['pixels'] + f['pixels'])[:MAXOBS]
-    _report(res, case, list(agg.values()))
+        for j in range(WIN):
+            for i in range(WIN):
+                p = (w[0] + i, w[2] + j)
+                if p not in seen:
+                    seen.add(p)
+                    IX.append(p[0])
+                    IY.append(p[1])
+                    vals.append(d[j, i])
+    # one row of pixels with explicit indices
+    IX = np.array(IX)[None, :]
+    IY = np.array(IY)[None, :]
+    po = PA.ellipse_pixel_list(cx, cy, rx, ry, th, IX, IY, margin=MARGIN, full=True, dtype=_LD)
+    _judge(res, trk, cfg, 'kernel_window', np.array(vals)[None, :], po, 0, 0, do_sum=False, index=(IX, IY))
+    res.transitions += NWIN - 1
 
 
 def _check_biggrid(res, trk, cfg):
